@@ -1720,7 +1720,12 @@ class _Streamer(mcasm.Streamer):
             self._state.proxies.add(proxy)
             return False, proxy
 
-        assert len(fixups) == 1
+        if len(fixups) != 1:
+            # e.g. a constant target that LLVM encoded directly
+            raise UnsupportedAssemblyError._make(
+                "Call and branch targets must be symbolic",
+                loc,
+            )
         target_expr = self._fixup_to_symbolic_operand(
             fixups[0], data, True, loc
         )
